@@ -85,6 +85,31 @@ def step (st : St) (op implObs : String) : St × String × List String × List S
     let c' := advance st.cache (kvNat toks "ms" * 1000)
     ({ st with cache := c' }, stateStr c', stateViol st.cache.maxSize implObs,
       [if c'.heap.length < st.cache.heap.length then "branch:ttl-expired" else "branch:ttl-kept"])
+  | "clearfire" =>
+    -- an expiry timer that fires across a Clear finds nothing to remove: the cache is simply empty
+    let c' := clear st.cache
+    ({ st with cache := c' }, stateStr c', stateViol st.cache.maxSize implObs, ["branch:clear-vs-timer", "nontrivial"])
+  | "staleget" =>
+    -- reader 1 looks `k` up, reader 2 loads `e` (n zero bytes, may evict `k`), reader 1 reads
+    let k := kvStr toks "k"
+    let e := kvStr toks "e"
+    let zeros : Bytes := List.replicate (kvNat toks "n") 0
+    let had := (st.cache.heap.find? (·.key = k)).map (·.value)
+    let log1 := st.log ++ loadOf st.cache (.get e (.ok zeros))
+    let (c1, _) := get st.cache e (.ok zeros)
+    match had with
+    | some v =>
+      if c1.heap.any (·.key = k) then
+        -- not evicted: an ordinary hit (access time refreshed)
+        let (c2, _) := get c1 k (.ok [0xEE])
+        ({ st with cache := c2, log := log1 }, "val:" ++ hex v ++ " " ++ stateStr c2, stateViol st.cache.maxSize implObs, ["branch:stale-reader-hit"])
+      else
+        -- evicted in between: the reader still gets the bytes it found; the item is not brought back
+        ({ st with cache := c1, log := log1 }, "val:" ++ hex v ++ " " ++ stateStr c1, stateViol st.cache.maxSize implObs, ["branch:stale-reader-evicted", "nontrivial"])
+    | none =>
+      let log2 := log1 ++ loadOf c1 (.get k (.ok [0xEE]))
+      let (c2, _) := get c1 k (.ok [0xEE])
+      ({ st with cache := c2, log := log2 }, "val:ee " ++ stateStr c2, stateViol st.cache.maxSize implObs, ["branch:stale-reader-miss"])
   | "clear" =>
     let c' := clear st.cache
     ({ st with cache := c' }, stateStr c', stateViol st.cache.maxSize implObs, ["branch:clear"])
